@@ -83,24 +83,32 @@ def part_a(shape, res, rng):
                         np.mod(x, 7, out=x)
                         out = Bint[(7,) + eshape] if eshape else Bint[7]
                     x.flags.writeable = False
-                    for give_output in (True, False):
+                    for give_output, extra_left in ((True, 0), (False, 0), (True, 1), (True, 2), (False, 1), (False, 2)):
                         if not give_output and dtype == "int":
                             continue
-                        case = (shape, event_rank, tuple(sorted(dim_to_name.items())), dtype, give_output)
+                        # a "global" map may name dims further left than the array has: those names simply do not occur in the result
+                        call_map = dict(dim_to_name)
+                        for e in range(extra_left):
+                            call_map[-(nb + 1 + e)] = "xl%d" % e
+                        if extra_left and (perm_i > 0 or (not give_output and event_rank > 0)):
+                            continue
+                        case = (shape, event_rank, tuple(sorted(call_map.items())), dtype, give_output)
                         nontriv = len(big) >= 1
+                        if extra_left:
+                            res.count("A:map-spans-more-dims-than-array")
                         try:
-                            f = funsor.to_funsor(x, out if give_output else None, dict(dim_to_name) if dim_to_name else None)
+                            f = funsor.to_funsor(x, out if give_output else None, dict(call_map) if call_map else None)
                         except Exception as e:
                             res.count("A:declined:%s" % type(e).__name__)
                             res.case()
                             continue
-                        if not give_output and dim_to_name:
+                        if not give_output and call_map:
                             # inferred event shape: leftmost named dim is the leftmost batch dim of x
-                            inferred_nb = min(-min(dim_to_name), rank)
+                            inferred_nb = min(-min(call_map), rank)
                             if inferred_nb != nb:
                                 res.count("A:skipped-ambiguous-inference")
                                 continue
-                        if not give_output and not dim_to_name and nb > 0:
+                        if not give_output and not call_map and nb > 0:
                             continue
                         res.count("A:roundtrips")
                         msg = None
